@@ -144,46 +144,59 @@ def obligations(S, L=2):
     if "read_only_paths" not in (cfg_fields or []):
         raise Unencodable(f"CompileConfig fields changed: {cfg_fields}")
     ro_idx = cfg_fields.index("read_only_paths")
-    for nq in range(0, L + 1):
-        for np_ in range(0, L + 1):
+    def harm(ex, st, ps, pname, qname, qcells, recursive):
+        same_prefix = ex.discriminant(st, ex.agg_field(st, st.heap[pname], 0, "PathPrefix")) == ex.discriminant(st, ex.agg_field(st, st.heap[qname], 0, "PathPrefix"))
+        qs = [st.heap[c_] for c_ in qcells]
+        np_, nq = len(ps), len(qs)
+        covers = z3.And([same_prefix] + [seg_may_alias(ex, st, a, b) for a, b in zip(ps, qs)]) if np_ <= nq else z3.BoolVal(False)
+        strictly_below = z3.And([same_prefix] + [seg_may_alias(ex, st, a, b) for a, b in zip(ps, qs)]) if np_ > nq else z3.BoolVal(False)
+        harmful = z3.Or(covers, z3.And(recursive, strictly_below))
+        exact_cover = z3.And([same_prefix] + [seg_equal(ex, st, a, b) for a, b in zip(ps, qs)]) if np_ <= nq else z3.BoolVal(False)
+        exact_below = z3.And([same_prefix] + [seg_equal(ex, st, a, b) for a, b in zip(ps, qs)]) if np_ > nq else z3.BoolVal(False)
+        harmful_exact = z3.Or(exact_cover, z3.And(recursive, exact_below))
+        return harmful, harmful_exact, same_prefix
+
+    # configurations: one entry (q) with 0..L segments, and two entries (q, r) with 0..L2 segments each, in both
+    # iteration orders (the BTreeSet's order depends on the entries' values)
+    L2 = min(L, 2)
+    configs = [((nq,), np_) for nq in range(0, L + 1) for np_ in range(0, L + 1)]
+    configs += [((nq, nr), np_) for nq in range(0, L2 + 1) for nr in range(0, L2 + 1) for np_ in range(0, L2 + 1)]
+    for entries, np_ in configs:
             ex = S.executor(oracles=ORACLES, opaque=[])
             st = State()
             pref, pcells = mk_path(ex, st, "p", np_)
-            qref, qcells = mk_path(ex, st, "q", nq)
-            recursive = z3.Bool("q.recursive")
-            st.heap["ro0"] = Agg("compiler::compile_config::ReadOnlyPath", {0: st.heap["q"], 1: Prim("bool", recursive)})
-            st.heap["cfg"] = Agg("compiler::compile_config::CompileConfig", {ro_idx: Seq("BTreeSet<ReadOnlyPath>", ["ro0"])}, origin="cfg*")
+            ro_cells, info = [], []
+            for ei, nq in enumerate(entries):
+                name = "qr"[ei]
+                qref, qcells = mk_path(ex, st, name, nq)
+                recursive = z3.Bool(f"{name}.recursive")
+                st.heap[f"ro{ei}"] = Agg("compiler::compile_config::ReadOnlyPath", {0: st.heap[name], 1: Prim("bool", recursive)})
+                ro_cells.append(f"ro{ei}")
+                info.append((name, qcells, recursive))
+            st.heap["cfg"] = Agg("compiler::compile_config::CompileConfig", {ro_idx: Seq("BTreeSet<ReadOnlyPath>", ro_cells)}, origin="cfg*")
             paths = ex.run(f, [Ref("&CompileConfig", "cfg", ()), pref], st)
             for n_, h in ex.stats["fns_entered"].items():
                 fns.append((n_, h))
+            tagc = "+".join(str(x) for x in entries)
             for pi, p in enumerate(paths):
                 def add(tag, post, detail=None):
                     role = f"C15:{tag}"
-                    o = Obl(role, {"C15"}, f"{role}#q{nq}p{np_}#path{pi}", p, post, {"q_segments": nq, "p_segments": np_, **(detail or {})})
+                    o = Obl(role, {"C15"}, f"{role}#entries{tagc}p{np_}#path{pi}", p, post, {"entry_segments": list(entries), "p_segments": np_, **(detail or {})})
                     o.ex = ex
                     obls.append(o)
                 if p.outcome.kind != "ret":
                     add(f"is_read_only_path:{p.outcome.kind}", z3.BoolVal(False), {"msg": p.outcome.msg})
                     continue
                 res = p.outcome.value.e
-                same_prefix = ex.discriminant(p.st, ex.agg_field(p.st, p.st.heap["p"], 0, "PathPrefix")) == ex.discriminant(p.st, ex.agg_field(p.st, p.st.heap["q"], 0, "PathPrefix"))
                 ps = [p.st.heap[c_] for c_ in pcells]
-                qs = [p.st.heap[c_] for c_ in qcells]
-                # p covers q: p is a prefix-alias of q (writing p replaces something that contains q)
-                covers = z3.And([same_prefix] + [seg_may_alias(ex, p.st, a, b) for a, b in zip(ps, qs)]) if np_ <= nq else z3.BoolVal(False)
-                # p is at or below q
-                below = z3.And([same_prefix] + [seg_may_alias(ex, p.st, a, b) for a, b in zip(ps, qs)]) if np_ >= nq else z3.BoolVal(False)
-                strictly_below = below if np_ > nq else z3.BoolVal(False)
-                harmful = z3.Or(covers, z3.And(recursive, strictly_below))
-                # split by whether aliasing through a negative index is what makes the write harmful
-                exact_cover = z3.And([same_prefix] + [seg_equal(ex, p.st, a, b) for a, b in zip(ps, qs)]) if np_ <= nq else z3.BoolVal(False)
-                exact_below = z3.And([same_prefix] + [seg_equal(ex, p.st, a, b) for a, b in zip(ps, qs)]) if np_ > nq else z3.BoolVal(False)
-                harmful_exact = z3.Or(exact_cover, z3.And(recursive, exact_below))
-                add("guard-rejects-every-overlapping-write(exact segments)", z3.Implies(harmful_exact, res))
+                hs = [harm(ex, p.st, ps, "p", name, qcells, rec) for name, qcells, rec in info]
+                harmful = z3.Or([h[0] for h in hs])
+                harmful_exact = z3.Or([h[1] for h in hs])
+                multi = "" if len(entries) == 1 else "[two entries]"
+                add(f"guard-rejects-every-overlapping-write(exact segments){multi}", z3.Implies(harmful_exact, res))
                 add("guard-rejects-every-overlapping-write(negative-index aliasing)", z3.Implies(z3.And(harmful, z3.Not(harmful_exact)), res))
-                # and the guard is not vacuous the other way: an unrelated path is writable
-                unrelated = z3.And(z3.Not(same_prefix))
-                add("guard-accepts-a-path-in-the-other-prefix", z3.Implies(unrelated, z3.Not(res)))
+                add("guard-accepts-a-path-in-the-other-prefix", z3.Implies(z3.And([z3.Not(h[2]) for h in hs]), z3.Not(res)))
+    # the two entries may also be listed in the other order
     return obls, sorted(set(fns))
 
 
@@ -208,6 +221,9 @@ def replayer(o, model):
             ("run", {"source": ".a[-1] = 9\n", "event": {"a": [1, 2, 3]}, "read_only": [[".a[2]", False]]}, {"if_compiled_event_eq": {"a": {"Array": [{"Integer": "1"}, {"Integer": "2"}, {"Integer": "3"}]}}}),
         ]
         return variants[0]
+    if "two entries" in role:
+        return ("run", {"source": ".a.b.c = 2\n", "event": {"a": {"b": {"c": 1}}}, "read_only": [[".a", False], [".a.b", True]]},
+                {"if_compiled_event_eq": {"a": {"Object": {"b": {"Object": {"c": {"Integer": "1"}}}}}}})
     if "exact segments" in role:
         return ("run", {"source": ".a.b = 9\n.a = 1\n", "event": {"a": {"b": 1}}, "read_only": [[".a", True]]}, {"if_compiled_event_eq": {"a": {"Object": {"b": {"Integer": "1"}}}}})
     if "other-prefix" in role:
